@@ -257,7 +257,7 @@ func (h hooks) Start(id string, ctx context.Context, args []uint64) probe.Decisi
 	c.Kind = k
 	d := probe.Decision{Kind: k}
 	switch k {
-	case probe.Fail:
+	case probe.Fail, probe.GateFail:
 		key := id
 		if len(args) > 0 && strings.Contains(id, ".i") {
 			key = id + "#" + strconv.FormatUint(args[0], 10)
@@ -397,6 +397,21 @@ func (s *Scenario) Body() (func(), *Run) {
 			vs.Emit("caller", "returned", inst)
 			r.RetVC[inst] = vs.Now()
 		}
+		// Gated functions are released once every instance has returned - by a thread of its own, so that the
+		// release carries no happens-before edge from the caller's code after the directive (race build).
+		if s.usesGate() {
+			vs.Go(func() {
+				vs.WaitUntil(func() bool {
+					for _, b := range r.Returned {
+						if !b {
+							return false
+						}
+					}
+					return true
+				}, "all-returned")
+				r.gate.Close()
+			})
+		}
 		if n == 1 {
 			runInst(0)
 		} else {
@@ -410,9 +425,20 @@ func (s *Scenario) Body() (func(), *Run) {
 				done.Recv()
 			}
 		}
-		r.gate.Close()
+		if !s.usesGate() {
+			r.gate.Close()
+		}
 		vs.Emit("caller", "end", nil)
 	}, r
+}
+
+func (s *Scenario) usesGate() bool {
+	for _, k := range s.Dec {
+		if k == probe.Gate || k == probe.GateFail {
+			return true
+		}
+	}
+	return false
 }
 
 func (s *Scenario) usesCancelDecision() bool {
@@ -560,7 +586,7 @@ func Check(r *Run, ex *vs.Exec) []Finding {
 	hasGate := false
 	nOver := 0
 	for _, k := range s.Dec {
-		if k == probe.Gate {
+		if k == probe.Gate || k == probe.GateFail {
 			hasGate = true
 		}
 		if k == probe.OverBar {
